@@ -63,12 +63,26 @@ func (p *printer) writeToken(t *token.Token) {
 		return
 	}
 
+	if p.state == PrinterStateHTML && p.last == nil && isShebang(t) {
+		// a shebang line comes before the first open tag
+		p.last = t.Value
+		p.output.Write(t.Value)
+		p.lastEnd = t.Position.EndPos
+		return
+	}
+
 	adjacent := t.Position != nil && p.lastEnd >= 0 && t.Position.StartPos == p.lastEnd
 	p.writeChunk(t.Value, !adjacent)
 
 	if t.Position != nil {
 		p.lastEnd = t.Position.EndPos
 	}
+}
+
+// isShebang reports whether t is the "#!..." line of a file: the lexer
+// attaches it, as a comment at offset 0, to the first token.
+func isShebang(t *token.Token) bool {
+	return t.ID == token.T_COMMENT && t.Position != nil && t.Position.StartPos == 0 && bytes.HasPrefix(t.Value, []byte("#!"))
 }
 
 func (p *printer) writeChunk(b []byte, separate bool) {
